@@ -817,6 +817,34 @@ def corpus(W):
     L.append("zzDivMod %d d %s %s %s" % (W, hx(5, 1, W), hx(6, 1, W), hx(9, 1, W)))
     L.append("zzAlmostInvMod %d %s %s" % (W, hx(3, 1, W), hx(9, 1, W)))
     L.append("zzInvMod %d c %s %s" % (W, hx(15 * B, 2, W), hx(45 * B + 75, 2, W)))
+    # 13a8c37 (docs/C05.fix-2.diff)  zzDivMod / zzInvMod with a == 0 did not return
+    L.append("zzInvMod %d c %s %s" % (W, hx(0, 2, W), hx(1 + (B - 2) * B, 2, W)))
+    L.append("zzDivMod %d d %s %s %s" % (W, hx(5, 1, W), hx(0, 1, W), hx(9, 1, W)))
+    L.append("zm %d plain d %s inv %s" % (W, ho(0xfffffffffffffffffffffffffffffeff, 16), ho(0, 16)) if False else
+             "zzInvMod %d d %s %s" % (W, hx(0, 1, W), hx(1, 1, W)))
+    # 6b1ebef (fix-3)  zzExGCD: da == bb was reduced alone, Bezout identity lost
+    for a, b in ((12, 8), (5, 1), (6, 2), (1 << (W + 3), 1 << W), (3 * B, B)):
+        L.append("zzExGCD %d %s %s" % (W, hx(a, 2, W), hx(b, 2, W)))
+    # 61f41d9 (fix-4)  zzJacobi with a shorter than b
+    bj = int.from_bytes(bytes.fromhex("61b420ff9a84288a56309fc8a5b7ad16f213a29034f7d9a0081e1c5cf4cbe18d7fe3c235a875bbcf78fdea5f913a27b44ccf01"), "little")
+    L.append("zzJacobi %d %s %s" % (W, hx(0x8A28849AFF20B461, 64 // W, W), hx(bj, 24 * 64 // W, W)))
+    L.append("zzJacobi %d %s %s" % (W, hx(2, 1, W), hx(B * B + 7, 3, W)))
+    # d5a222a (fix-5)  zzPowerModW: exponent 1 with a >= mod, exponent 0 with mod == 1
+    L += ["zzPowerModW %d 10 1 3" % W, "zzPowerModW %d %d 1 %d" % (W, B - 2, B // 2 + 3), "zzPowerModW %d 5 0 1" % W]
+    # 206667c (fix-6)  ppDiv: deg b a multiple of W (implicit top word), divisor 1
+    L.append("ppDiv %d d %s %s" % (W, hx((1 << (16 * W)) - 2, 16, W), hx((1 << (12 * W)) | 0x87, 13, W)))
+    L.append("ppDiv %d ra %s %s" % (W, hx((1 << (5 * W)) - 1, 5, W), hx((1 << W) | 3, 2, W)))
+    L += ["ppDiv %d d %s %s" % (W, hx(5 + 7 * B, 2, W), hx(1, 1, W)), "ppMod %d d %s %s" % (W, hx(5, 1, W), hx(1, 1, W)),
+          "ppMod %d ra %s %s" % (W, hx(5 + 7 * B, 2, W), hx(1, 1, W))]
+    # 8e1147b (fix-7)  ppExGCD: gcd longer than [min(n, m)]d ; Bezout identity for even b
+    L.append("ppExGCD %d %s %s" % (W, hx(1, 4, W), hx(0x37335540, 1, W)))
+    L.append("ppExGCD %d %s %s" % (W, hx(0xc8787a78, 1, W), hx((1 << (6 * W + 6)) - 1, 8, W)))
+    L.append("ppExGCD %d %s %s" % (W, hx(7, 1, W), hx(6 << W, 3, W)))
+    # 19f9cad (fix-8)  gf2 inversion / division when m is a multiple of the word size
+    for fld in ((256, 10, 5, 2), (128, 7, 2, 1), (192, 7, 2, 1)):
+        no = fld[0] // 8
+        L.append("gf2 %d %d %d %d %d d inv %s" % ((W,) + fld + (ho((1 << fld[0]) - 5, no),)))
+        L.append("gf2 %d %d %d %d %d cb div %s %s" % ((W,) + fld + (ho(3, no), ho(1 << (fld[0] - 1), no))))
     return L
 
 
@@ -849,13 +877,38 @@ def complete(ctx, exe, lines):
     idx = [i for i, l in enumerate(lines) if l.split(" ", 1)[0] in RAW]
     if not idx:
         return lines
-    outs, err, rc = ctx.run_lines(exe, [lines[i] for i in idx])
+    raw = [lines[i] for i in idx]
+    outs = []
+    while len(outs) < len(raw):                       # an abort loses only the op that aborted
+        o, err, rc = ctx.run_lines(exe, raw[len(outs):])
+        if rc == 0 and len(o) == len(raw) - len(outs):
+            outs += o
+            break
+        good = o[:-1] if o and len(o) <= len(raw) - len(outs) else o[:0]
+        outs += good + ["CRASH"]
     out = list(lines)
     for j, i in enumerate(idx):
         t = lines[i].split(" ")
         res = outs[j] if j < len(outs) else "CRASH"
         out[i] = " ".join([RAW[t[0]]] + t[1:] + res.split(" "))
     return out
+
+
+def diff_all(ctx, exe, lines, cfg):
+    """ctx.diff_run stops at a sanitizer abort; continue behind the aborting op (at most 12 times)"""
+    mism, c_all, l_all, base = [], [], [], 0
+    rest = lines
+    for _ in range(12):
+        m, c, l = ctx.diff_run(exe, rest, cfg)
+        mism += [(base + i, op, co, lo) for i, op, co, lo in m]
+        c_all += c
+        l_all += l
+        if len(c) == len(rest):
+            break
+        base += len(c)
+        rest = rest[len(c):]
+    ctx.cov["ops_" + cfg] = len(c_all)
+    return mism, c_all, l_all
 
 
 def drop_hangs(ctx, exe, lines, budget=240):
@@ -1129,7 +1182,7 @@ def ring_oracle(f, W, a, o):
     m, k, l, l1, pat, op, args = int(a[0]), int(a[1]), int(a[2]), int(a[3]), a[4], a[5], a[6:]
     fpoly = (1 << m) | (1 << k) | (1 << l) | (1 << l1) | 1 if l else (1 << m) | (1 << k) | 1
     no = (m + 7) // 8
-    if o[-1] in ("not-in", "bad-op") or op in ("from", "tr"):
+    if o[-1] in ("not-in", "bad-op") or op in ("from", "tr") or (op == "qsolve" and o[2] != "1"):
         return None
     x = unhex(args[0])
     y = unhex(args[1]) if len(args) > 1 else 0
@@ -1191,7 +1244,7 @@ def run(ctx):
             ctx.violation(key_of(h) + ":no-return", replay_text(cfg, h, "(does not return within 10 s)", "-", "the call does not terminate"), True,
                           "[%s] %s : the library call does not return" % (cfg, h[:300]))
         lines = complete(ctx, exe, lines)
-        mism, c_out, l_out = ctx.diff_run(exe, lines, cfg)
+        mism, c_out, l_out = diff_all(ctx, exe, lines, cfg)
         total_mism += len(mism)
         ctx.cov["functions_" + cfg] = len(g.cov)
         for i, op, c, l in mism:
